@@ -870,6 +870,32 @@ class IntTr:
                 and "array_nda" in self.options:
             t, ty = self.expr(e.args[0], cur)
             return f"(nd_of_ints {t})", "nda"
+        if nm == "len" and len(e.args) == 1 and not kw and isinstance(e.args[0], ast.SetComp):
+            # len({E for x in range(..) if C}): the number of distinct values of E over the selected x
+            sc = e.args[0]
+            if len(sc.generators) != 1 or sc.generators[0].is_async or not isinstance(sc.generators[0].target, ast.Name):
+                fail(e, "set comprehension form")
+            g = sc.generators[0]
+            x = g.target.id
+            l, tl_ = self.expr(g.iter, cur)
+            if tl_ not in ("pylist", "vec") or x in cur:
+                fail(e, "set comprehension iterable / bound-variable capture")
+            self.fresh += 1
+            xv = f"{x}_{self.fresh}"
+            c2 = dict(cur)
+            c2[x] = (xv, "int")
+            sel = l
+            for cond in g.ifs:
+                (ct, cty), cg = self.scoped(lambda cond=cond: self.expr(cond, c2))
+                if cty != "bool" or cg:
+                    fail(e, "set comprehension filter (must be a total boolean expression)")
+                sel = f"(filter (fun {xv} => {ct}) {sel})"
+            (et, ety), eg = self.scoped(lambda: self.expr(sc.elt, c2))
+            if ety != "int":
+                fail(e, "set comprehension element")
+            if eg:       # the element expression may raise for some x: every selected x must pass
+                self.guard(f"(forallb (fun {xv} => {self.conj(eg)}) {sel})")
+            return f"(zlen (np_unique (map (fun {xv} => {et}) {sel})))", "int"
         if nm == "len" and len(e.args) == 1 and not kw:
             if isinstance(e.args[0], ast.Attribute) and e.args[0].attr == "shape":
                 t, ty = self.expr(e.args[0].value, cur)
